@@ -98,6 +98,74 @@ def corr_cases(ctx, rng, n):
     return cases
 
 
+# ------------------------------------------------------------------------------------------ tetrahedral work-list loop
+
+TET_IMPORTS = ('From Coq Require Import List Arith Bool ZArith QArith.\n'
+               'Require Import Model.C12_Refine Model.C13_Adaptive Model.C13_TetLoop Gen.C13Gen.')
+TET_DEFS = '''
+Local Open Scope nat_scope.
+Definition out_t := (bool * list point * list (list nat) * list nat * list nat)%type.
+Definition out_eqb (a b : out_t) : bool :=
+  let '(o1, p1, t1, s1, m1) := a in let '(o2, p2, t2, s2, m2) := b in
+  Bool.eqb o1 o2 && qss_eqb p1 p2 && natss_eqb t1 t2 && nats_eqb s1 s2 && nats_eqb m1 m2.
+Definition inp_t := (list point * list (list nat) * list nat * list (list (list nat)) * list nat)%type.
+Definition mk_inp (p : list point) (t : list (list nat)) (marked : list nat) (perms : list (list (list nat))) (subs : list nat)
+  : inp_t := (p, t, marked, perms, subs).
+Definition mk_out (ok : bool) (p : list point) (t : list (list nat)) (s m : list nat) : out_t := (ok, p, t, s, m).
+Definition run (inp : inp_t) : out_t :=
+  let '(p, t, marked, perms, subs) := inp in
+  match tet_adaptive gen_tet_bisect p t marked perms with
+  | None => (false, [], [], [], [])
+  | Some (st, hist) => (true, ts_p st, ts_t st, tet_subdomain (ts_par st) subs, flat_map (fun m => length m :: m) hist)
+  end.
+'''
+
+
+def record_tet(m, marked, subs):
+    """run the real MeshTet1._adaptive and record what _adaptive_sort_mesh did in every sweep"""
+    from skfem import MeshTet1
+    rec = []
+    orig = MeshTet1._adaptive_sort_mesh
+
+    def wrap(self, p, t, mk):
+        T = orig(self, p, t, mk)
+        rec.append(([int(v) for v in mk], T[:, mk].T.tolist()))
+        return T
+    MeshTet1._adaptive_sort_mesh = wrap
+    try:
+        r = m.with_subdomains({'a': np.asarray(subs, dtype=np.int64)}).refined(np.asarray(marked, dtype=np.int64))
+    finally:
+        MeshTet1._adaptive_sort_mesh = orig
+    return r, rec
+
+
+def tet_cases(ctx, rng):
+    cases = []
+    for _ in range(ctx.n(4, 10)):
+        g = small_mesh('tet', rng, ctx.n(4, 6), ntmin=2)
+        if g is None:
+            continue
+        m = gm.build('tet', g['p'], g['t'])
+        nt = m.t.shape[1]
+        subs = gm.random_tags(rng, nt)
+        for sub in all_subsets(nt):
+            if not sub:
+                continue
+            mk = rng.permutation(sub) if rng.random() < 0.3 else np.array(sub, dtype=np.int64)
+            r, rec = record_tet(m, mk, subs)
+            if r.subdomains is None:
+                continue
+            hist = []
+            for mset, _ in rec:
+                hist += [len(mset)] + mset
+            inp = '(mk_inp %s %s %s %s %s)' % (cpts(m.p), ctab(m.t), cnats([int(v) for v in mk]),
+                                                clist([cmat_nat(cells) for _, cells in rec]), cnats(subs.tolist()))
+            out = '(mk_out true %s %s %s %s)' % (cpts(r.p), ctab(r.t), cnats(sorted(int(v) for v in r.subdomains['a'])),
+                                                   cnats(hist))
+            cases.append((inp, out, {**case_data('tet', m, subs), 'marked': [int(v) for v in mk], 'sweeps': len(rec)}))
+    return cases
+
+
 # ------------------------------------------------------------------------------------------ oracle
 
 def check_adaptive(ctx, kind, m, marked, subs, bnds, label, order=1, disjoint=True):
@@ -125,6 +193,8 @@ def check_adaptive(ctx, kind, m, marked, subs, bnds, label, order=1, disjoint=Tr
     tagkey = 'adaptive'
     if order == 1 and not r.is_valid() and not dup:
         ctx.fail(f'adaptive-invalid:{cname}', 'refined mesh fails is_valid()', data)
+    if order == 2 and not r.is_valid():      # is_valid supports quadratic meshes since N38
+        ctx.fail(f'adaptive-invalid:{cname}', 'refined second-order mesh fails is_valid()', data)
     st = ex.Step(kind, m.p[:, :nv], m.t, r.p[:, :nvr], r.t, uniform=False, marked=sorted(set(marked.tolist())), disjoint=disjoint)
     ctx.count(('adaptive', kind, cname, m.p.tolist(), m.t.tolist(), marked.tolist(),
                sorted((k, v.tolist()) for k, v in tags_s.items())),
@@ -309,6 +379,11 @@ def run(ctx):
                  nontrivial=lambda r: len(r['t'][0]) >= 2 and 0 < len(r['marked']) < len(r['t'][0]))
         for c in cases[:3]:
             ctx.sample({'kind': c[2]['kind'], 'cells': len(c[2]['t'][0]), 'marked': c[2]['marked'], 'subdomain': c[2]['subdomain']})
+    if dyn_ok:
+        tc = tet_cases(ctx, np_seed(ctx, 132))
+        ctx.corr('tet_loop', TET_IMPORTS, 'run', 'out_eqb', tc, defs=TET_DEFS, per_file=(len(tc) + 3) // 4,
+                 nontrivial=lambda r: r['sweeps'] >= 2)
+        ctx.extra['tet_loop_sweeps'] = {str(k): sum(1 for c in tc if c[2]['sweeps'] == k) for k in sorted({c[2]['sweeps'] for c in tc})}
     run_oracle(ctx)
 
 
